@@ -90,7 +90,7 @@ def run_family(fam, prop_id, tier, known, stats):
                 disagreements.append(dict(family=fam.name, case=fam.describe(c), model=mo[:4000], impl=obs[:4000],
                                           trace=c.get('_trace')))
         for (pid, sig, what) in fam.oracle(c, obs):
-            if pid != prop_id:
+            if pid != prop_id and prop_id != 'ALL':
                 continue
             entry = dict(family=fam.name, case=fam.describe(c), signature=sig, what=what, impl=obs[:4000])
             hit = None
